@@ -17,8 +17,12 @@ pub fn safe_math_post_080_optimization(source_unit: SourceUnit) -> HashSet<Loc> 
 pub fn safe_math_optimization(source_unit: SourceUnit, pre_080: bool) -> HashSet<Loc> {
     let mut optimization_locations: HashSet<Loc> = HashSet::new();
 
-    let solidity_version = utils::get_solidity_version_from_source_unit(source_unit.clone())
-        .expect("Could not extract solidity version from source unit");
+    //Without a readable `pragma solidity` version the version-gated pattern cannot apply
+    let solidity_version = match utils::get_solidity_version_from_source_unit(source_unit.clone())
+    {
+        Some(solidity_version) => solidity_version,
+        None => return optimization_locations,
+    };
 
     //Versions are compared as (major, minor, patch) triples
     let is_pre_080 = solidity_version < (0, 8, 0);
